@@ -99,6 +99,7 @@ fn main() {
         "C09" => dispatch(checks::c09::C09, tier, seed, replay),
         "C10" => dispatch(checks::c10::C10, tier, seed, replay),
         "C11" => dispatch(checks::c11::C11, tier, seed, replay),
+        "C12" => dispatch(checks::c12::C12, tier, seed, replay),
         "C13" => dispatch(checks::c13::C13, tier, seed, replay),
         "C18" => dispatch(checks::c18::C18, tier, seed, replay),
         _ => {
